@@ -10,6 +10,8 @@
 //!   tr:<s> | ts | tc                      try_get_response / try_get_signal / try_get_call
 //!   wr:<s>:<mode> | ws:<mode> | wc:<mode> wait_* ; mode I = Duration(2 s) standing in for Infinite (the message is there), N = Nonblock, D = Duration(1ms)
 //!   ro:<mode>                             refill_once
+//!         mode u<micros>: Duration of that many microseconds (0 = already expired); the token of such an operation
+//!         ends in #<n> = number of whole arrivals it took off the socket (by FIONREAD)
 //!   ra                                    refill_all
 //! stdout: one token per op, comma separated; after the token, `|` and the errors the peer read
 //! from the socket after that op (`;` separated):
@@ -189,7 +191,9 @@ fn drain_peer(peer: &mut std::os::unix::net::UnixStream, pending: &mut Vec<u8>) 
 
 /// "I": the model says the message is there, so the call returns at once; a generous bound instead of
 /// Timeout::Infinite keeps the harness alive when the implementation does not find it (reported as HANG)
-const LONG_MS: u64 = 2000;
+fn long_ms() -> u64 {
+    std::env::var("C14_LONG_MS").ok().and_then(|v| v.parse().ok()).unwrap_or(2000)
+}
 
 /// where to cut an arrival that is written in two pieces: `<n>` absolute, `b+<d>` / `b-<d>` relative to the first
 /// byte of the body, `e-<d>` relative to the end; clamped to 1..len-1
@@ -209,8 +213,10 @@ fn split_pos(tok: &str, body_start: usize, len: usize) -> usize {
 
 fn tmo(mode: &str) -> Timeout {
     match mode {
-        "I" => Timeout::Duration(std::time::Duration::from_millis(LONG_MS)),
+        "I" => Timeout::Duration(std::time::Duration::from_millis(long_ms())),
         "N" => Timeout::Nonblock,
+        // u<micros>: a deadline so close that it may pass while the call is at work (0: has passed already)
+        m if m.starts_with('u') => Timeout::Duration(std::time::Duration::from_micros(m[1..].parse().unwrap())),
         _ => Timeout::Duration(std::time::Duration::from_millis(1)),
     }
 }
@@ -237,7 +243,9 @@ fn run(fidx: u32, ops: &str) -> String {
     peer.set_nonblocking(true).unwrap();
     let mut pending = Vec::new();
     let mut out = Vec::new();
-    let mut rest: Option<(Vec<u8>, &'static str)> = None;
+    let mut rest: Option<(Vec<u8>, &'static str, usize)> = None;
+    // lengths of the arrivals written completely and not yet read by the client (oldest first)
+    let mut unread: std::collections::VecDeque<usize> = std::collections::VecDeque::new();
     for op in ops.split(',') {
         if op.is_empty() {
             continue;
@@ -256,19 +264,21 @@ fn run(fidx: u32, ops: &str) -> String {
                 let verdict = if filter_family(fidx, &seen) { "+" } else { "-" };
                 if p[0] == "a" {
                     peer.write_all(&buf).unwrap();
+                    unread.push_back(buf.len());
                     verdict.to_string()
                 } else {
                     // only the first k bytes now; the rest with the next `af`. On a local socket the bytes are
                     // queued at the receiver when write returns, so the next client operation sees exactly them.
                     let k = split_pos(p[2], body_start, buf.len());
                     peer.write_all(&buf[..k]).unwrap();
-                    rest = Some((buf[k..].to_vec(), verdict));
+                    rest = Some((buf[k..].to_vec(), verdict, buf.len()));
                     "p".to_string()
                 }
             }
             "af" => match rest.take() {
-                Some((bytes, verdict)) => {
+                Some((bytes, verdict, total)) => {
                     peer.write_all(&bytes).unwrap();
+                    unread.push_back(total);
                     verdict.to_string()
                 }
                 None => "?".to_string(),
@@ -300,6 +310,28 @@ fn run(fidx: u32, ops: &str) -> String {
         };
         let sent = drain_peer(&mut peer, &mut pending);
         let hang = tok == "T" && op.ends_with(":I");
+        // how many whole arrivals this operation took off the socket (FIONREAD counts all queued bytes of a
+        // stream socket); reported for the operations with a tiny deadline, whose outcome is not determined
+        let mut tok = tok;
+        if rest.is_none() && !matches!(p[0], "a" | "ap" | "af") {
+            let mut queued: nix::libc::c_int = 0;
+            let fd = std::os::unix::io::AsRawFd::as_raw_fd(rpc.conn());
+            unsafe { nix::libc::ioctl(fd, nix::libc::FIONREAD, &mut queued) };
+            let mut taken = 0;
+            // an arrival counts as taken when all its bytes have left the socket (a call whose deadline passes in
+            // the middle of a message keeps the part it has read in RecvConn's buffer: not taken yet)
+            while let Some(&front) = unread.front() {
+                if unread.iter().sum::<usize>() - front >= queued as usize {
+                    unread.pop_front();
+                    taken += 1;
+                } else {
+                    break;
+                }
+            }
+            if op.rsplit(':').next().map(|m| m.starts_with('u')).unwrap_or(false) {
+                tok = format!("{}#{}", tok, taken);
+            }
+        }
         out.push(format!("{}|{}", if hang { "HANG" } else { &tok }, sent.join(";")));
         if hang {
             break;
